@@ -36,6 +36,9 @@ ASSUMPTIONS = ["the OS scheduler is perturbed by delays, not owned: worker assig
 def _case(draw):
     cfg = draw(samp.config(max_warm=8, max_main=6, storages=False))
     cfg["n_process"] = 1
+    # the dtype of a trace array is taken from the value at chain 0's initial state (known finding under C13): a trace
+    # function whose return TYPE depends on the state would make every chain's array depend on chain 0's start
+    cfg["traces"] = [t for t in cfg["traces"] if t != "relu"]
     nvar = draw(st.integers(2, 3))
     variations = []
     for _ in range(nvar):
